@@ -201,6 +201,29 @@ def response(cx):
     cx.check(n >= 2, "floor", "both outcomes of a snapshot install are acknowledged")
 
 
+def _not_in_voters(cx, l):
+    """literal: !<voters>.contains(x)"""
+    return l[0] == "is" and l[2] is False and l[1][0] == "call" and l[1][1].endswith("::contains") and any(is_f(x, "Configuration.voters") for x in walk(l[1]))
+
+
+def _left_voters(cx, l):
+    """literal: lead_transferee.is_some_and(|e| !conf.voters.contains(e))  or  !conf.voters.contains(<transferee>)"""
+    from ..idioms import closure_returns
+    LT = "RaftCore.lead_transferee"
+    if _not_in_voters(cx, l) and any(is_f(x, LT) for x in walk(l[1])):
+        return True
+    if l[0] == "is" and l[2] is True and l[1][0] == "call" and l[1][1].endswith("is_some_and") and any(is_f(x, LT) for x in walk(l[1][2][0])):
+        for a in l[1][2][1:]:
+            if a[0] == "closure":
+                rets = closure_returns(cx.prog, a[1])
+                if rets and len(rets) == 1 and not rets[0][0]:
+                    r = rets[0][1]
+                    if r[0] == "un" and r[1] == "Not" and r[2][0] == "call" and r[2][1].endswith("::contains"):
+                        args = r[2][2]
+                        return any(is_f(x, "Configuration.voters") for x in walk(args[0])) and any(x[0] == "param" for x in walk(args[1]))
+    return False
+
+
 # ---------------------------------------------------------------------------------------------- XFER
 @obligation("XFER.timeout_now_gate", ["C17"], floor=2, kind="guard with caller context",
             why="a target told to campaign before it holds the leader's entire log could lose committed entries or fail and wedge the transfer")
@@ -293,8 +316,16 @@ def writers(cx):
                 ok, ne = g.after_edge_must_pass(lambda lits: any(et(l) for l in lits), lambda b, c=c: b == c.block, assume=some + lead)
                 cx.check(ok and ne >= 1, cx.site_key(c, "abort:timeout"), "a transfer still pending when the election timeout elapses is abandoned", c)
                 continue
-            if any(l[0] == "is" and l[2] is True and l[1][0] == "call" and l[1][1].endswith("is_some_and") and contains(fld(LT), l[1]) for l in gl):
+            if any(l[0] == "is" and l[2] is True and l[1][0] == "call" and l[1][1].endswith("is_some_and") and contains(fld(LT), l[1]) for l in gl) or \
+               (any(l[0] == "in" and is_f(l[1], LT) and l[2] == frozenset(["Some"]) for l in gl) and any(_not_in_voters(cx, l) for l in gl) and not any(s.fn is c.fn for s, _ in sets)):
                 kinds.add("removed")
+                # the test is membership in the VOTERS (either half of a joint config), not mere presence in the tracker:
+                # a target demoted to learner keeps its progress but must no longer be handed the leadership
+                okp = any(_left_voters(cx, l) for l in gl)
+                cx.check(okp, cx.site_key(c, "abort:left-voters"), "the transfer is abandoned when the target is no longer in conf().voters (found %s)" % "; ".join(show_lit(l)[:140] for l in gl if "lead_transferee" in show_lit(l))[:300], c)
+                g = cx.pg(c.fn)
+                ok, ne = g.after_edge_must_pass(lambda lits: any(_left_voters(cx, l) for l in lits), lambda b, c=c: b == c.block)
+                cx.check(ok and ne >= 1, cx.site_key(c, "abort:left-voters:converse"), "whenever the target has left the voters the transfer is abandoned", c)
                 continue
             if any(l[0] == "in" and is_f(l[1], LT) and l[2] == frozenset(["Some"]) for l in gl) and any(s.fn is c.fn for s, _ in sets):
                 kinds.add("retarget")
